@@ -13,7 +13,7 @@ func init() {
 	}
 	registry["C03"] = &propSpec{Rules: []ruleFn{ruleC03Thresh, ruleC03Gate, ruleFresh("C03-FRESH", fCtl+"UpdateVolStatus")}, Explanation: "tbd", NotDecided: "tbd"}
 	registry["C04"] = &propSpec{Rules: []ruleFn{ruleBuildRW("C04-READERS"), ruleC04Lists("C04-LISTS"), ruleIndexMapUse("C04-READSRC"), ruleC04Verify("C04-VERIFY"), ruleC04Promote("C04-PROMOTE"), ruleC04ReadGate}, Explanation: "tbd", NotDecided: "tbd"}
-	registry["C05"] = &propSpec{Rules: []ruleFn{ruleDetach("C05-DETACH"), ruleC05Monitor("C05-MONITOR"), ruleC04Lists("C05-STOPIO")}, Explanation: "tbd", NotDecided: "tbd"}
+	registry["C05"] = &propSpec{Rules: []ruleFn{ruleDetach("C05-DETACH"), ruleC05Monitor("C05-MONITOR"), ruleC04Lists("C05-STOPIO"), ruleC05Ping("C05-PING"), ruleC15Client, ruleC02Majority, ruleIndexMapUse("C05-INDEXMAP")}, Explanation: "tbd", NotDecided: "tbd"}
 	registry["C07"] = &propSpec{Rules: []ruleFn{ruleC07AddOrder("C07-ADD-ORDER"), ruleC07Merge, ruleC07Sync, ruleCanAdd("C07-ONE-WO"), ruleC04Verify("C07-VERIFY")}, Explanation: "tbd", NotDecided: "tbd"}
 	registry["C09"] = &propSpec{Rules: []ruleFn{ruleC09}, Explanation: "tbd", NotDecided: "tbd"}
 	registry["C13"] = &propSpec{Rules: []ruleFn{ruleC13Ctl, ruleFresh("C13-FRESH", fCtl+"UpdateCheckpoint")}, Explanation: "tbd", NotDecided: "tbd"}
@@ -26,4 +26,6 @@ func init() {
 	registry["C10"] = &propSpec{Rules: []ruleFn{ruleC10, ruleC04Verify("C10-PROMOTE-COPY")}, Explanation: "tbd", NotDecided: "tbd"}
 	registry["C11"] = &propSpec{Rules: []ruleFn{ruleC11Refuse("C11-REFUSE"), ruleC11Sync}, Explanation: "tbd", NotDecided: "tbd"}
 	registry["C12"] = &propSpec{Rules: []ruleFn{ruleC12, ruleC08Commit}, Explanation: "tbd", NotDecided: "tbd"}
+	registry["C15"] = &propSpec{Rules: []ruleFn{ruleC15Codec, ruleC15Client, ruleC05Ping("C15-PING")}, Explanation: "tbd", NotDecided: "tbd"}
+	registry["C17"] = &propSpec{Rules: []ruleFn{ruleC17Attach}, Explanation: "tbd", NotDecided: "tbd"}
 }
